@@ -3,6 +3,8 @@ package pxw
 import (
 	"bytes"
 	"fmt"
+	"github.com/cossacklabs/acra/acrablock"
+	"github.com/cossacklabs/acra/crypto"
 	"strings"
 	"testing"
 	"time"
@@ -280,6 +282,36 @@ func (C05) Run(t *testing.T, plan *kernel.Plan, keepLog bool) *kernel.Result {
 			// (Parse/Bind/Execute/Sync) and is judged separately below
 			script = append(script, Stmt{SQL: c05Variant(stmts[i].canon, int(op.Arg(1, 0))), Extended: plan.Sw("extended") == 1})
 		}
+		// A statement name used again: an admitted statement is prepared under a name, a rejected one is sent
+		// under the same name, then the name is executed without a new Parse. The database still holds the
+		// admitted statement; its rows must be processed as that statement's.
+		reuseAt := -1
+		if plan.Sw("extended") == 1 && !mysql && len(plan.Faults) == 0 {
+			var good, bad *c05Stmt
+			for i := range stmts {
+				admit, _ := c05Verdict(chain, ignoreParse, stmts[i])
+				if admit && stmts[i].tmpl.name == "sel_t1" && good == nil {
+					good = &stmts[i]
+				}
+				if !admit && stmts[i].tmpl.kind != "garbage" && bad == nil {
+					bad = &stmts[i]
+				}
+			}
+			if good != nil && bad != nil {
+				if key, kerr := pw.KS.KS.GetClientIDSymmetricKey([]byte(owner)); kerr == nil {
+					if blk, berr := acrablock.CreateAcraBlock([]byte(fmt.Sprintf("PLAIN-%d", good.marker)), key, nil); berr == nil {
+						if cell, serr := crypto.SerializeEncryptedData(blk, crypto.AcraBlockEnvelopeID); serr == nil {
+							pw.DB.Tables["t1"].Rows = append(pw.DB.Tables["t1"].Rows, [][]byte{[]byte(fmt.Sprint(good.marker)), []byte("p"), cell})
+							reuseAt = len(script)
+							script = append(script,
+								Stmt{SQL: good.canon, Extended: true, Name: "reused"},
+								Stmt{SQL: bad.canon, Extended: true, Name: "reused"},
+								Stmt{SQL: good.canon, Extended: true, Name: "reused", NoParse: true})
+						}
+					}
+				}
+			}
+		}
 		run := pw.RunSession(owner, script)
 		if w.Res.Cut {
 			return
@@ -384,6 +416,23 @@ func (C05) Run(t *testing.T, plan *kernel.Plan, keepLog bool) *kernel.Result {
 					}
 					w.Violate("C05", "served-after-rejection-uses-own-settings", ssite, fmt.Sprintf("%q returned %s err=%q (fields %d)", script[i].SQL, got, res.Err, len(res.Fields)))
 				}
+			}
+		}
+		if reuseAt >= 0 && len(run.Results) >= reuseAt+3 {
+			first, rejected, again := run.Results[reuseAt], run.Results[reuseAt+1], run.Results[reuseAt+2]
+			want := ""
+			if len(first.Rows) == 1 && len(first.Rows[0]) == 2 {
+				want = string(first.Rows[0][1])
+			}
+			switch {
+			case first.Err != "" || !strings.HasPrefix(want, "PLAIN-"):
+				w.Violate("C05", "admitted-by-rules-is-served", site+"/named-statement", fmt.Sprintf("%q under a name: err=%q rows=%.60q", script[reuseAt].SQL, first.Err, first.Rows))
+			case !isBlocked(rejected):
+				w.Violate("C05", "rejected-by-rules-is-blocked", site+"/named-statement", fmt.Sprintf("%q under the same name: err=%q", script[reuseAt+1].SQL, rejected.Err))
+			case again.Err != "" || len(again.Rows) != 1 || len(again.Rows[0]) != 2 || string(again.Rows[0][1]) != want:
+				w.Violate("C05", "served-after-rejection-uses-own-settings", site+"/named-statement", fmt.Sprintf("the statement prepared as %q, executed again by name after %q had been rejected under that name, returned err=%q rows=%.80q (first execution returned %q)", script[reuseAt].SQL, script[reuseAt+1].SQL, again.Err, again.Rows, want))
+			default:
+				w.Probe("named-statement-after-rejection")
 			}
 		}
 		w.State(fmt.Sprintf("chain=%d ignore=%v", len(chain), ignoreParse))
